@@ -1782,7 +1782,7 @@ rrul_fill_Hly(echs_instant_t *restrict tgt, size_t nti, rrulsp_t rr)
 			for (bitint_iter_t doyi = 0UL;
 			     (tmp = bi383_next(&doyi, &rr->doy), doyi);) {
 				if (tmp > 0 && (unsigned int)tmp == yd ||
-				    tmp < 0 && maxy - ++tmp == yd) {
+				    tmp < 0 && maxy + 1 + tmp == yd) {
 					/* that's clearly a match */
 					goto bang;
 				}
